@@ -259,6 +259,33 @@ def c02_schedules(pid, tier, seed):
                 sample={"program": runs[0]["program"], "threads": runs[0]["threads"], "schedule": runs[0]["schedule"]})
 
 
+def c11_schedules(pid, tier, seed):
+    """C11, schedule clause: a bar without length renders {len} as the position; while one thread draws, another increments (the position is an
+    atomic outside the bar's lock). Every sequence of L thread choices (Choices.tla) at atomic granularity; every painted frame must show the
+    same number for {pos} and {len} (Trace_Sync!FrameConsistent)."""
+    q = tier == "quick"
+    progs = [("draw_vs_inc", [["tick", "tick"], ["inc", "inc"]]), ("draw_msg_vs_inc", [["tick", "set_message"], ["inc", "inc"]])]
+    runs = []
+    states = trans = 0
+    for name, callers in progs:
+        wd = vlib.workdir("%s_choices_%s" % (pid, name))
+        out, dist, gen = vlib.run_tlc("Choices", vlib.cfg_text(dict(N=len(callers), L=9 if q else 12), invariants=["TypeOK"]), wd, workers=2)
+        states += dist
+        trans += gen
+        for h in vlib.histories_from(out):
+            runs.append({"setup": {"multi": False, "bars": 1, "ticker": [], "named": True, "nolen": True}, "atomics": True, "keep": True, "paircheck": True,
+                         "threads": [[{"op": c, "b": 1} for c in caller] for caller in callers], "schedule": h["schedule"], "spincheck": False, "program": name})
+    bad, st, total = vlib.replay_and_judge("%s_sched" % pid, runs, "sync", "Trace_Sync", shards=8)
+    byh = {r["h"]: r for r in runs}
+    fails = [dict(cls="%s/%s" % (v["rule"], byh[v["h"]]["program"]), rule=v["rule"], n=len(byh[v["h"]]["schedule"]), kf=[],
+                  what="rule=%s program=%s" % (v["rule"], byh[v["h"]]["program"]),
+                  replay={"driver": "sync", "monitor": "Trace_Sync", "rule": v["rule"], "history": byh[v["h"]]}) for v in bad]
+    if st.get("pairs", 0) == 0 and not bad:
+        raise vlib.ToolError("vacuous run: no frame with a {pos}|{len} pair was judged")
+    return dict(states=states, transitions=trans, runs=len(runs), records=total, stats=st, fails=fails,
+                sample={"program": runs[0]["program"], "threads": runs[0]["threads"], "schedule": runs[0]["schedule"]})
+
+
 def final_state_clause(pid, tier, seed, families):
     """Schedule clause of C01 / C02 / C03 / C16 (Linear.tla): small concurrent programs generated by TLC (MC_Linear) with preemption-bounded
     schedules, run on the real code under the controlled scheduler; Trace_Linear requires the final terminal and getters to be those of
